@@ -16,7 +16,7 @@ struct Scenario {
 }
 
 fn scenarios(thorough: bool) -> Vec<Scenario> {
-  // call table of harness/loomh (10 Rate() 11 Scale(x=3) 12 Svc(A=5), invoked by name; 13 14 15 Zone for two times of day in Europe/Warsaw and one in America/New_York on 2021-03-28; 16 17 Def(A=5), Def(A=42); 18 Batch(A=5) 19 Gross(A=100)): 0 All(A=5) 1 Quote(A=500) 2 All(A=42) 3 Quote(A=5) 4 All(A=500) 5 Quote(A=42) 6 Many(S=abcz) 7 Many(S=xyz) 8 Three(A=5) 9 Three(A=42)
+  // call table of harness/loomh (10 Rate() 11 Scale(x=3) 12 Svc(A=5), invoked by name; 13 14 15 Zone for two times of day in Europe/Warsaw and one in America/New_York on 2021-03-28; 16 17 Def(A=5), Def(A=42); 18 Batch(A=5) 19 Gross(A=100); 20 21 22 Grade(A=60), Grade(A=95), Grade(A=10)): 0 All(A=5) 1 Quote(A=500) 2 All(A=42) 3 Quote(A=5) 4 All(A=500) 5 Quote(A=42) 6 Many(S=abcz) 7 Many(S=xyz) 8 Three(A=5) 9 Three(A=42)
   let mut v = vec![
     Scenario { plan: "1/3", what: "two threads, the decision that invokes the decision service as a function, different inputs", bound: "2" },
     Scenario { plan: "0/2", what: "two threads, the decision over table, regular expression and temporal decisions, different inputs", bound: "2" },
@@ -30,6 +30,7 @@ fn scenarios(thorough: bool) -> Vec<Scenario> {
     Scenario { plan: "13,14/15", what: "two threads, one evaluating both sides of the change in turn while the other evaluates the same day in another zone", bound: "2" },
     Scenario { plan: "16/17", what: "two threads, a decision table none of whose rules matches, whose default output entry is an expression over the input, different inputs", bound: "2" },
     Scenario { plan: "18,19/0", what: "two threads, one making three hundred invocations of a user-defined function with too few arguments and then proper invocations of another (what a thread keeps between its own calls)", bound: "2" },
+    Scenario { plan: "20,21/22", what: "two threads, a table with the UNIQUE hit policy whose rules overlap: one thread evaluates an input that one rule matches and then one that two rules match, the other an input that another rule matches (what a table keeps between evaluations)", bound: "2" },
     Scenario { plan: "0,0/2", what: "two threads, one repeating its own call while the other evaluates the same decision with another input (what a call site keeps between a thread's own calls)", bound: "2" },
   ];
   if thorough {
